@@ -5,7 +5,8 @@ from d42 import optional
 from d42.utils import rollout
 
 MODULE = "D42.Props.C18"
-THEOREMS = []
+THEOREMS = ["rollout_flatten", "rollout_id", "rollout_flatten_ell", "sepSafe_of_single_char", "sepSafe_counterexample",
+            "splitFirst_some", "splitFirst_none_iff", "rolloutF_flatten", "rolloutF_id"]
 FILES = ["D42/Model/Rollout.lean", "D42/Props/C18.lean"]
 
 EVIDENCE = dict(
